@@ -57,5 +57,10 @@ def run(ctx):
                 "reference being released).")
     nr = elin.check_rc_thresholds(ctx, F)
     ctx.floor("E-LIN.rcconst", "reference-count comparisons inventoried", nr, 11)
+    ctx.explain("E-FREELIST.mark: SharedStoreState::allocated (the slot array's high-water mark; chunks below it belong to "
+                "threads that may still be filling them) is written by get_slot_from_shared only, with a value computed by an "
+                "addition: it never moves back.")
+    nm = efreelist.check_allocation_mark(ctx, F)
+    ctx.floor("E-FREELIST.mark", "writers of the allocation mark", nm, 1)
     ctx.not_decided = ("equivalence to a sequential execution over schedules, lost updates in the lock-free lists, "
                        "deadlock freedom beyond lock order (condvar protocols): behavioural, not claimed")
